@@ -16,6 +16,8 @@ pub mod c15;
 pub mod c16;
 pub mod c17;
 pub mod c18;
+#[cfg(feature = "robotics")]
+pub mod c19;
 
 use crate::engine::Ctx;
 
@@ -47,6 +49,8 @@ pub fn dispatch(ctx: &Ctx, replay: Option<&str>) -> i32 {
         "C16" => p!(c16),
         "C17" => p!(c17),
         "C18" => p!(c18),
+        #[cfg(feature = "robotics")]
+        "C19" => p!(c19),
         other => {
             eprintln!("MACHINERY: unknown property {}", other);
             2
